@@ -31,10 +31,10 @@ CHECKS["C03"] = {
     "text": "Explicit-state BFS over the raw states (size, block count, every block including the bits beyond size()) of real xdynamic_bitset and xdynamic_bitset_view objects: "
             "every operation instance of the alphabet is applied to every reachable state and the result compared with std::vector<bool>; every new state is interrogated through all "
             "queries the statement lists plus the unused-bit invariant and the caller-memory guards of views. uint8_t (S=10; thorough also S=17 and uint16_t S=17) runs to fixpoint, i.e. all "
-            "reachable states of the alphabet; uint32_t/uint64_t are depth-bounded. That is the right level because the property is about state left behind by one call meeting the next call.",
+            "reachable states of the alphabet; uint32_t/uint64_t are depth-bounded. That is the right level because the property is about state left behind by one call meeting the next call. Two further dimensions: the whole owning alphabet and the initializer-list routes over a default-initialising allocator on dirtied (0xFF / 0xA5) memory; requests at the top of size_type's range and around small allocator limits, judged by exact arithmetic (an unsatisfiable request must throw and leave the bitset unchanged).",
     "design_ref": "DESIGN.md section 3, C03",
     "note": "Trusted: std::vector<bool>, the harness' shift/zero-fill model. Bounds: max size S per instantiation, operand gallery for binary operators (all patterns in thorough for S=10), "
-            "boundary bit indices and depth 3/4 for 32/64-bit blocks. Calls whose precondition the statement does not cover (pop_back on empty, pos>=size, operands of different size, moved-from use) are not in the alphabet.",
+            "boundary bit indices and depth 3/4 for 32/64-bit blocks. Calls whose precondition the statement does not cover (pop_back on empty, pos>=size, operands of different size, moved-from use) are not in the alphabet. Exception type of an unsatisfiable request, reserve/capacity/max_size and the strong guarantee of assign are not judged; std::allocator runs of the limit part sit on a replaced operator new (16 MiB); allocator limit fixed at 3 blocks; sizes between 5w+1 and 2^28 are not requested under a limit.",
     "technique": "explicit-state model checking of the implementation (BFS with state hashing over real objects, reference-model oracle on every transition)",
 }
 
